@@ -111,3 +111,44 @@ def integer_sanitiser(F, rep, rule):
         if has_all and nonempty: rep.ok(rule, "non-empty result only under all(is_ascii_digit) && !is_empty", sample=txt[:80], nontrivial_key="p%d" % n)
         else: rep.bad(rule, "uint-guard", "sanitize_to_integer can return %s without the digits-only / non-empty guard" % txt[:80], f.where())
     rep.floor(rule, "non-empty return paths of sanitize_to_integer", n, 2)
+
+
+def zero_strip_result(F, rep, rule):
+    """On the all-digits branch of remove_leading_zeros_from_segment nothing may return the segment text unstripped:
+    every string produced there is trim_start_matches('0') of the segment, the constant "0", or the Display of a parsed integer."""
+    import parsers
+    fs = [f for p, f in san_fns(F).items() if p.endswith("Sanitizer::remove_leading_zeros_from_segment")]
+    if not rep.anchor(rule, "Sanitizer::remove_leading_zeros_from_segment", fs): return
+    f = fs[0]
+    def digits_guarded(fn, bi):
+        return any(d[0] == "call" and (d[1] or "").endswith("Iterator::all") and pol is True for d, pol, dd in mir.guards_of(fn, bi))
+    def raw_segment(fn, op):
+        """operand is the untouched segment text (parameter / captured parameter), looking through derefs only"""
+        for o in mir.trace_op(fn, op, transparent=("ops::Deref>::deref", "String::as_str", "convert::AsRef")):
+            if o.kind == "param" and o.fn is f and o.data == 2 and not o.fields(): return True
+            if o.kind == "upvar":
+                r = mir.resolve_upvar(F, o)
+                if r and raw_segment(r[0], r[1]): return True
+        return False
+    n = 0; bad = []
+    scope = [(f, None)] + [(c, c) for c in F.children(f.path) if c.kind == "closure"]
+    for g, clo in scope:
+        # a closure is in the guarded region when it is constructed there
+        clo_guarded = False
+        if clo is not None:
+            for bi, si, st in f.stmts():
+                if st[0] == "=" and st[2][0] == "agg" and st[2][1].get("k") == "closure" and st[2][1]["path"] == clo.path:
+                    clo_guarded = digits_guarded(f, bi)
+        for bi, t in g.calls():
+            c = mir.callee(t) or ""
+            if any(x in c for x in ("ToString>::to_string", "ToOwned>::to_owned", "String as std::convert::From", "Clone>::clone", "str>::to_string", "std::string::String::from")) and t[2]:
+                guarded = clo_guarded if clo is not None else digits_guarded(g, bi)
+                if not guarded: continue
+                n += 1
+                if raw_segment(g, t[2][0]):
+                    bad.append("%s bb%d line %s" % (g.where(), bi, g.blocks[bi]["line"]))
+    if bad:
+        rep.bad(rule, "zeros-not-stripped", "on the all-digits branch the segment text can be returned without stripping its leading zeros (%s): e.g. a digit run too long for an integer parse keeps its zeros" % bad, f.where())
+    else:
+        rep.ok(rule, "every string produced on the all-digits branch is stripped text, \"0\" or an integer rendering (%d string constructions)" % n, nontrivial_key="zs")
+    rep.floor(rule, "string constructions on the all-digits branch", n, 1)
